@@ -100,6 +100,21 @@ def histories(tier):
                   {"op": "session", "env": "E2", "runner": r, "package": "p", "declare": ["p.a.b"], "expr": "a.b", "bind": {"p.a.b": "v1"}}])
         H.append([{"op": "session", "env": "E1", "runner": r, "package": "p", "declare": ["p.a.b"], "expr": "a.b", "bind": {"p.a.b": "v0"}},
                   {"op": "session", "env": "E2", "runner": r, "expr": "a.b", "bind": {"a.b": "v1"}}])
+        # D: one Environment, several programs for the same expression text with different host functions under the same names
+        # (operator.* callables: reachable by both runners), and the same names bound to different functions in two environments
+        for f1, f2 in (("neg", "abs"), ("abs", "neg"), ("pos", "neg")):
+            H.append([{"op": "env", "env": "E1", "runner": r},
+                      {"op": "use", "env": "E1", "expr": "g(x) + 1", "bind": {"x": "v0"}, "functions": {"g": f1}},
+                      {"op": "use", "env": "E1", "expr": "g(x) + 1", "bind": {"x": "v1"}, "functions": {"g": f2}}])
+        H.append([{"op": "env", "env": "E1", "runner": r},
+                  {"op": "use", "env": "E1", "expr": "x.g() + h(x)", "bind": {"x": "v0"}, "functions": {"g": "neg", "h": "abs"}},
+                  {"op": "use", "env": "E1", "expr": "x.g() + h(x)", "bind": {"x": "v1"}, "functions": {"g": "abs", "h": "neg"}},
+                  {"op": "use", "env": "E1", "expr": "x.g() + h(x)", "bind": {"x": "v2"}, "functions": {"g": "neg", "h": "abs"}}])
+        H.append([{"op": "env", "env": "E1", "runner": r},
+                  {"op": "use", "env": "E1", "expr": "g(x)", "bind": {"x": "v0"}, "functions": {"g": "neg"}},
+                  {"op": "use", "env": "E1", "expr": "g(x)", "bind": {"x": "v1"}}])
+        H.append([{"op": "session", "env": "E1", "runner": r, "expr": "g(x)", "bind": {"x": "v0"}, "functions": {"g": "neg"}},
+                  {"op": "session", "env": "E2", "runner": r, "expr": "g(x)", "bind": {"x": "v1"}, "functions": {"g": "abs"}}])
         H.append([{"op": "session", "env": "E1", "runner": r, "expr": "[x].map(y, y + 1)[0]", "bind": {"x": "v0"}},
                   {"op": "session", "env": "E2", "runner": r, "expr": "y + x", "bind": {"x": "v1", "y": "v2"}}])
     return H
@@ -212,7 +227,9 @@ def execute(hist, vals, vars):
             envs[st["env"]] = mkenv(st)
         elif st["op"] == "prog":
             e = envs[st["env"]]
-            progs[st["env"]] = common.outcome(lambda: e.program(e.compile(st["expr"])))
+            import operator
+            fns = {n: getattr(operator, f) for n, f in st["functions"].items()} if st.get("functions") else None
+            progs[st["env"]] = common.outcome(lambda: e.program(e.compile(st["expr"]), functions=fns))
         elif st["op"] == "eval":
             pk, p = progs[st["env"]]
             if pk != "value":
@@ -223,7 +240,9 @@ def execute(hist, vals, vars):
             if st["op"] == "session":
                 envs[st["env"]] = mkenv(st)
             e = envs[st["env"]]
-            pk, p = common.outcome(lambda: e.program(e.compile(st["expr"])))
+            import operator
+            fns = {n: getattr(operator, f) for n, f in st["functions"].items()} if st.get("functions") else None
+            pk, p = common.outcome(lambda: e.program(e.compile(st["expr"]), functions=fns))
             if pk != "value":
                 out = ("construction-" + pk, p, True)
                 continue
@@ -287,7 +306,7 @@ def _desc(s):
     if s["op"] == "prog":
         return f"{s['env']}.program(`{s['expr']}`)"
     if s["op"] == "use":
-        return f"{s['env']}:`{s['expr']}`{sorted(s['bind'])}"
+        return f"{s['env']}:`{s['expr']}`{sorted(s['bind'])}" + (f" functions={s['functions']}" if s.get("functions") else "")
     return f"{s['env']}.evaluate({s['names']})"
 
 
